@@ -138,6 +138,53 @@ pub fn run_extract(work: &Path, k: usize, archive: &[u8], names: &[Vec<u8>], for
     ExtractRun { status_ok: output.status.success(), files, outside_changed, abs_marker_written: abs_marker }
 }
 
+/// Extraction into a directory that already holds OLDER, LONGER versions of the members (a second extraction,
+/// a stale tree): after `mlar extract` each member file holds exactly the member's bytes (both forms).
+pub fn c16_stale_cases(_rng: &mut Rng, _tier: &str, out: &mut Out) {
+    let work = std::env::current_dir().unwrap();
+    let names: Vec<Vec<u8>> = vec![b"a".to_vec(), b"c.bin".to_vec(), b"d/b".to_vec(), b"d/e/f.txt".to_vec(), b"zzz".to_vec()];
+    let order: Vec<usize> = vec![3, 0, 4, 1, 2];
+    let Ok(archive) = build_named_archive(&names, &order) else { return };
+    for form in [0u64, 1] {
+        let sb = work.join(format!("sbstale{form}"));
+        let _ = fs::remove_dir_all(&sb);
+        fs::create_dir_all(sb.join("out/d/e")).unwrap();
+        fs::write(sb.join("a.mla"), &archive).unwrap();
+        for n in &names {
+            fs::write(sb.join("out").join(String::from_utf8_lossy(n).as_ref()), vec![b'S'; 100]).unwrap();
+        }
+        let mut cmd = Command::new(mlar_bin());
+        cmd.current_dir(&sb).arg("extract").arg("-i").arg("a.mla").arg("-o").arg("out");
+        if form == 1 {
+            cmd.arg("-g").arg("*");
+        }
+        let output = cmd.output().expect("run mlar");
+        let mut msg = None;
+        if !output.status.success() {
+            msg = Some(format!("mlar extract into a directory holding older files fails (form {form})"));
+        }
+        for (i, n) in names.iter().enumerate() {
+            let got = fs::read(sb.join("out").join(String::from_utf8_lossy(n).as_ref())).unwrap_or_default();
+            let want = member_content_for(n, i);
+            if got != want && msg.is_none() {
+                msg = Some(format!("form {form}: member {:?} extracted over an older file of 100 bytes holds {} bytes, the member has {}", String::from_utf8_lossy(n), got.len(), want.len()));
+            }
+        }
+        let _ = fs::remove_dir_all(&sb);
+        out.case(&Case {
+            id: format!("c16-stale-form{form}"),
+            model_fn: "",
+            args: vec![],
+            imp: json!([]),
+            oracle_ok: msg.is_none(),
+            oracle_msg: msg.unwrap_or_default(),
+            class: format!("extract over older files form={form}"),
+            nontrivial: true,
+            meta: json!({"form": form}),
+        });
+    }
+}
+
 fn components_pool() -> Vec<Vec<u8>> {
     vec![
         b".".to_vec(),
